@@ -16,7 +16,7 @@ BASE = {
     "Times": {1, 2}, "Dev": set(), "MaxPending": 2, "MaxEdits": 4, "MaxChain": 4,
     "MaxSyncs": 99, "MaxLen": 9999, "MaxLong": 1, "Cap": 1999, "BigVals": set(),
     "BigSize": 1000, "AvoidSet": set(), "Urg": {"none"}, "Emit": False,
-    "EditKinds": {"C", "D", "U"},
+    "EditKinds": {"C", "D", "U"}, "WithTrim": False,
     "Racing": False, "Faults": False,
 }
 
